@@ -626,10 +626,24 @@ def adv_instances(tier, want_contiguous):
     combos = [c for r in (1, 2, 3) for c in itertools.product(kinds, repeat=r)]
     # rank 4: advanced indices *preceded by a slice* (the only way to have a
     # slice in front of non-adjacent advanced indices), and friends
-    S = "s111" if tier == "thorough" else "s000"   # (full slices: quick)
-    combos += [(S, "arr", S, "arr"), (S, "int", S, "arr"),
-               (S, "arr", S, "int"), (S, "arr", "arr", S),
-               (S, S, "arr", "arr"), ("arr", S, S, "arr")]
+    # (full slices in the quick tier; in the thorough tier one of the two
+    # slices is fully symbolic, the other full, in both assignments -- the
+    # lowering treats the axes independently, and two fully symbolic slices
+    # square the number of paths: 870 paths / 15 000 obligations for one
+    # instance, which no longer finished reliably once truncated paths kept
+    # their alternatives, see DESIGN 12.2)
+    T = [("S", "arr", "S", "arr"), ("S", "int", "S", "arr"),
+         ("S", "arr", "S", "int"), ("S", "arr", "arr", "S"),
+         ("S", "S", "arr", "arr"), ("arr", "S", "S", "arr")]
+    for t in T:
+        if tier != "thorough":
+            combos.append(tuple("s000" if c == "S" else c for c in t))
+            continue
+        pos = [i for i, c in enumerate(t) if c == "S"]
+        for full in pos:
+            combos.append(tuple(
+                ("s000" if i == full else "s111") if c == "S" else c
+                for i, c in enumerate(t)))
     for combo in combos:
         if True:
             narr = sum(1 for c in combo if c.startswith("arr"))
@@ -1075,7 +1089,18 @@ class LowerEinsum(Contract):
         except EngineSignal:
             raise
         except ValueError as e:
-            h.oblige("lower.einsum.rejected=>numpy-rejects", z3.Not(np_ok),
+            rej = z3.Not(np_ok)
+            if getattr(h, "dim_mode", None) == "param":
+                # lengths are expressions in size parameters (C16): equal
+                # means equal for *all* parameter values, so a rejection is
+                # right as soon as NumPy rejects for *some* valuation
+                from z3.z3util import get_vars
+                ps = [v for v in get_vars(np_ok)
+                      if v.decl().name().startswith("sp_")]
+                if ps:
+                    rej = z3.Exists(ps, z3.And([p_ >= 0 for p_ in ps]
+                                               + [z3.Not(np_ok)]))
+            h.oblige("lower.einsum.rejected=>numpy-rejects", rej,
                      props=("C03", "C02"), info=f"{type(e).__name__}: {e}")
             return
         except Exception as e:  # noqa: BLE001
